@@ -8,7 +8,7 @@ from . import schema as S
 from . import program as P
 
 NSHARDS = 8
-GEN_FILES = ["gen/schema.py", "gen/program.py", "gen/driver.py", "gen/ops.py"]
+GEN_FILES = ["gen/schema.py", "gen/program.py", "gen/driver.py", "gen/ops.py", "gen/corpus.py", "gen/spec.py"]
 
 
 def gen_version():
